@@ -143,6 +143,7 @@ class BlockSeries:
             # Make an intermediate scalar BlockSeries that packs all finite
             # dimensions into a single item
             if all(isinstance(element, int) for element in item):
+                np.empty(self.shape)[item]  # Raises IndexError if out of range.
                 return BlockSeries(
                     eval=lambda *index: self[item + index],
                     shape=(),
